@@ -6,9 +6,8 @@ open IblVerif IblVerif.Proto IblVerif.OpenSize
 Line protocol of C11 (parsing/printing only; every answer is computed by `IblVerif.OpenSize`, instantiated with
 IEEE binary64 arithmetic `floatArith`).  Floats travel as the decimal value of their bit pattern.
 
-  open <off|on> <iw> <nc> <itemsize> <bytes> <fs> <fileTimeSecs|-> <hasFileSizeBytes>
-                                                               Reader / OnlineReader on a .bin with a .meta
-                                                               (iw = ignore_warnings; `-` = key absent)
+  open <off|on> <nc> <itemsize> <bytes> <fs> <fileTimeSecs|->   Reader / OnlineReader on a .bin with a .meta
+                                                               (`-` = the key is absent: recording in progress)
   flat <off|on> <nc> <ns> <fs:nat> <itemsize> <bytes>          Reader(bin, nc=, ns=, fs=) without a .meta
   cbin <nc> <fs> <fileTimeSecs|-> <ch_ns> <ch_nc>              Reader on a .cbin whose .ch announces (ch_ns, ch_nc)
   onlinens <nc> <itemsize> <bytes>                             OnlineReader.ns on the current size
@@ -21,12 +20,6 @@ def showErr : Err → String
   | .emptyFile => "err ValueError:empty"
   | .mmapTooLong => "err ValueError:length"
   | .typeError => "err TypeError"
-  | .keyError => "err KeyError"
-
-def bool? : String → Option Bool
-  | "0" => some false
-  | "1" => some true
-  | _ => none
 
 /-- optional float: `-` = the key is absent from the meta data -/
 def optF64? (s : String) : Option (Option Float) :=
@@ -50,24 +43,24 @@ def showOpened (k : Kind) (h : Hdr Float) (itemsize bytes : Nat) : String :=
 
 def step (t : List String) : String :=
   match t with
-  | ["open", k, iw, nc, isz, bytes, fs, fts, hs] =>
-    match kind? k, bool? iw, nat? nc, nat? isz, nat? bytes, f64? fs, optF64? fts, bool? hs with
-    | some k, some iw, some nc, some isz, some bytes, some fs, some fts, some hs =>
-      match openBin floatArith k iw (.ofMeta nc fs fts hs) isz bytes with
+  | ["open", k, nc, isz, bytes, fs, fts] =>
+    match kind? k, nat? nc, nat? isz, nat? bytes, f64? fs, optF64? fts with
+    | some k, some nc, some isz, some bytes, some fs, some fts =>
+      match openBin floatArith k (.ofMeta nc fs fts) isz bytes with
       | .ok h => showOpened k h isz bytes
       | .error e => showErr e
-    | _, _, _, _, _, _, _, _ => "bad-op"
+    | _, _, _, _, _, _ => "bad-op"
   | ["flat", k, nc, ns, fs, isz, bytes] =>
     match kind? k, nat? nc, nat? ns, nat? fs, nat? isz, nat? bytes with
     | some k, some nc, some ns, some fs, some isz, some bytes =>
-      match openBin floatArith k false (.flat nc ns fs) isz bytes with
+      match openBin floatArith k (.flat nc ns fs) isz bytes with
       | .ok h => showOpened k h isz bytes
       | .error e => showErr e
     | _, _, _, _, _, _ => "bad-op"
   | ["cbin", nc, fs, fts, chns, chnc] =>
     match nat? nc, f64? fs, optF64? fts, nat? chns, nat? chnc with
     | some nc, some fs, some fts, some chns, some chnc =>
-      match openCbin floatArith (.ofMeta nc fs fts true) (chns, chnc) with
+      match openCbin floatArith (.ofMeta nc fs fts) (chns, chnc) with
       | .ok h => showOpened .offline h 0 0
       | .error e => showErr e
     | _, _, _, _, _ => "bad-op"
